@@ -295,8 +295,111 @@ fn permuted_schema_files(proj: &Project, rng: &mut crate::rng::Rng) -> Vec<(Stri
     parts.iter().enumerate().filter(|(_, p)| !p.defs.is_empty()).map(|(i, p)| (format!("{}/{}", proj.root, names[i]), render_ts(p, None, Feat::plain()))).collect()
 }
 
+
+// ---------------------------------------------------------------- part D: verdicts under permutation, in-process
+
+/// multiset of operation-diagnostic kinds and of schema-diagnostic kinds: the verdict, positions and order left out
+fn verdict_of(r: &crate::pipeline::PipelineResult) -> (Vec<String>, Vec<String>, usize) {
+    let mut a: Vec<String> = r.schema_diags.iter().map(|d| d.kind.clone()).collect();
+    let mut b: Vec<String> = r.op_diags.iter().map(|d| d.kind.clone()).collect();
+    a.sort();
+    b.sort();
+    (a, b, r.panics.len())
+}
+
+pub fn check_perm_lib(schemas: &[String], op: &str) -> Vec<Violation> {
+    let replay = json!({"property":"C17","kind":"perm-lib","schemas":schemas,"op":op});
+    let files = vec![("ops/main.graphql".to_string(), op.to_string())];
+    let mut out = vec![];
+    let base = verdict_of(&crate::props::c03::run_real_opt(&schemas[0], &files, true));
+    for (i, s) in schemas.iter().enumerate().skip(1) {
+        let v = verdict_of(&crate::props::c03::run_real_opt(s, &files, true));
+        if v != base {
+            let class = if base.1.is_empty() != v.1.is_empty() || base.0.is_empty() != v.0.is_empty() { "accept-vs-reject" } else { "different-diagnostics" };
+            out.push(Violation { sig: format!("C17|permutation|library-verdict-differs|{class}"), detail: format!("check gives schema diagnostics {:?} / operation diagnostics {:?} for one order of the schema definitions and {:?} / {:?} for permutation #{i} — operation {:?}", base.0, base.1, v.0, v.1, clip(op, 500)), replay: replay.clone() });
+            break;
+        }
+    }
+    out
+}
+
+fn run_perm_lib(ctx: &Ctx, rep: &mut Report) {
+    use crate::gen_ops::{OpOpts, gen_valid_doc};
+    use crate::gen_schema::{SchemaOpts, gen_valid_schema, split_extensions};
+    use crate::render::{Feat, render_exec, render_ts};
+    let n = ctx.budget(16_000, 320_000);
+    for case in 0..n {
+        let mut rng = ctx.rng("c17d", case);
+        let mut so = SchemaOpts::default_for(&mut rng);
+        so.interface_chains = true;
+        let (schema, _) = gen_valid_schema(&mut rng, &so);
+        let ix = crate::schema_ix::SchemaIx::new(&schema);
+        let mut oo = OpOpts::standard();
+        oo.coercing_literals = rng.coin();
+        let Some(doc) = gen_valid_doc(&mut rng, &ix, &oo) else { continue };
+        // valid document or a single-fault mutant of it: the verdict must not depend on the order either way
+        let (doc, faulty) = if rng.chance(1, 3) {
+            match crate::inject_ops::inject(&mut rng, &ix, &doc) {
+                Some(f) => (f.doc, true),
+                None => (doc, false),
+            }
+        } else {
+            (doc, false)
+        };
+        let op = render_exec(&doc, None, Feat::plain());
+        let shaped = if rng.chance(1, 3) { split_extensions(&schema, &mut rng) } else { schema.clone() };
+        let mut schemas = vec![render_ts(&shaped, None, Feat::plain())];
+        // reversed, rotated and two shuffled orders (extensions keep their relative order per type: only definitions
+        // of *different* names change places, which never changes the merged schema)
+        let mut rev = shaped.clone();
+        rev.defs.reverse();
+        let perms = [rev];
+        for p in perms {
+            if order_preserving(&shaped, &p) {
+                schemas.push(render_ts(&p, None, Feat::plain()));
+            }
+        }
+        for _ in 0..3 {
+            let mut q = shaped.clone();
+            rng.shuffle(&mut q.defs);
+            if order_preserving(&shaped, &q) {
+                schemas.push(render_ts(&q, None, Feat::plain()));
+            }
+        }
+        if schemas.len() < 2 {
+            continue;
+        }
+        rep.trace_case(|| json!({"property":"C17","kind":"perm-lib","schemas":schemas,"op":op}));
+        rep.eval();
+        rep.count(if faulty { "library_permutation_cases|single-fault-document" } else { "library_permutation_cases|valid-document" });
+        rep.add("library_permutations_checked", schemas.len() as u64 - 1);
+        rep.nontrivial(&format!("permlib{}\u{1}{op}", schemas[0]));
+        rep.violations(check_perm_lib(&schemas, &op));
+    }
+}
+
+/// same relative order of the items that share a (kind, name) key (a definition and its extensions)
+fn order_preserving(a: &TsDoc, b: &TsDoc) -> bool {
+    let key = |d: &TsDef| -> String {
+        match d {
+            TsDef::Type(t) => format!("t:{}", t.name.s),
+            TsDef::Schema(_) => "schema".into(),
+            TsDef::Directive(d) => format!("d:{}", d.name.s),
+        }
+    };
+    let proj = |doc: &TsDoc| -> std::collections::BTreeMap<String, Vec<String>> {
+        let mut m: std::collections::BTreeMap<String, Vec<String>> = Default::default();
+        for d in &doc.defs {
+            m.entry(key(d)).or_default().push(format!("{d:?}"));
+        }
+        m
+    };
+    proj(a) == proj(b)
+}
+
 pub fn run(ctx: &Ctx, rep: &mut Report) {
     crate::gen_syntax::set_allow_block(false);
+    run_perm_lib(ctx, rep);
     rep.note("feature mask: no block strings (C07 owns their defect). Every CLI run is a fresh process: std::collections::hash_map::RandomState draws new keys per process, so hash-map iteration orders vary between the runs compared.");
     let k_runs = if ctx.thorough { 8 } else { 5 };
     // ---- A
@@ -384,6 +487,7 @@ pub fn replay(case: &Value, ctx: &Ctx) -> Vec<Violation> {
             let c = LibCase { files: files_from(&case["files"]), root: case["root"].as_str().unwrap_or("app").into(), schema_paths: strs(&case["schema_paths"]), op_paths: strs(&case["op_paths"]), config_text: case["config"].as_str().unwrap_or("").into(), schema_output: case["schema_output"].as_str().map(|s| s.into()), resolvers_output: case["resolvers_output"].as_str().map(|s| s.into()), decl_ext: case["decl_ext"].as_str().unwrap_or("d.graphql.ts").into() };
             check_lib(ctx, 0, &c, &mut 0)
         }
+        Some("perm-lib") => check_perm_lib(&strs(&case["schemas"]), case["op"].as_str().unwrap_or("")),
         Some("perm") => {
             let c = PermCase { original: files_from(&case["original"]), permuted: files_from(&case["permuted"]), root: case["root"].as_str().unwrap_or("app").into(), schema_output: case["schema_output"].as_str().map(|s| s.into()), outputs: files_from(&case["outputs"]) };
             check_perm(ctx, 0, &c, &mut (0, 0, 0))
